@@ -38,7 +38,8 @@ CHECKS = {
                 text="Seeded exploration of histories of receiver/sender registrations and unregistrations (overlapping payload types, SSRC "
                      "latching, re-registration) interleaved with RTP and RTCP packets of every type delivered by a delaying/reordering/"
                      "duplicating network: each route_rtp()/route_rtcp() result equals the reference router's; nothing is ever routed to an "
-                     "unregistered party. SSRCs claimed by two parties at once are judged leniently (the statement does not order them)."),
+                     "unregistered party. An SSRC registered by two receivers at once is judged leniently (the statement does not order "
+                     "them); a registration decides over an SSRC that had merely stuck to another receiver."),
     "C15": dict(engine="history_sim", design="10/C15", technique="deterministic simulation: traffic segments through a bottleneck-queue network model and a sender clock with arbitrary origin into the real RemoteBitrateEstimator; sliding-window reference and bound oracles per arrival",
                 text="Seeded exploration of arrival histories (10-3000 pps, sizes 0-1500, idle gaps around and beyond the 1 s window, bursts, "
                      "bottleneck squeezes that ramp delay, 24-bit abs-send-time wrap, several SSRCs, loss/duplication/reordering): add() never "
@@ -66,8 +67,8 @@ CHECKS = {
                      "the original when negotiated, verbatim otherwise; a NACK lists <=128 packets; nothing kills a transport or a media task; "
                      "in liveness runs every frame is eventually delivered."),
     "C04": dict(engine="media_sim", design="10/C04", technique="deterministic simulation: pairs of real RTCDtlsTransports over the simulated network with generated fingerprint lists, SRTP profile lists and roles; expected verdict from hashlib; delivery oracle under delay and bit-burst corruption",
-                text="Seeded exploration of configurations (fingerprint lists: subsets/permutations of sha-256/384/512, case variants, one "
-                     "altered hex digit, unsupported algorithms, mixtures; SRTP profile preference lists on each side; explicit and ICE-derived "
+                text="Seeded exploration of configurations (fingerprint lists: subsets/permutations of sha-256/384/512, case variants, values "
+                     "differing in one hex digit / a leading part of the digest / the digest plus an octet / empty, unsupported algorithms, mixtures; SRTP profile preference lists on each side; explicit and ICE-derived "
                      "roles): each side ends connected iff >=1 supported fingerprint is listed, all supported ones match the peer certificate "
                      "(case-insensitively) and the profile lists intersect, otherwise failed, refusing sends and delivering nothing; when both "
                      "connect, RTP, RTCP and data sent in both directions arrive field-for-field unless altered in transit, and nothing altered "
@@ -97,14 +98,15 @@ CHECKS = {
                      "ended (its consumer got MediaStreamError), no event fires afterwards, no aiortc task of that node is pending and "
                      "no decoder thread is alive after a 3 s grace period."),
     "C05": dict(engine="hostile_sim", design="10/C05 + Appendix A", technique="deterministic simulation with an enumerated fault class x protocol state product: a forging actor injects byte-level built datagrams (raw, or authenticated through the peer's real DTLS/SRTP) into a full real receive path at generated points of a session; liveness of the receive loop and tasks, a line-count cost meter, and post-injection round trips are the oracle",
-                text="Fault enumeration: 72 datagram classes (raw bytes of every first-byte range, damaged ciphertext; SCTP packets with "
+                text="Fault enumeration: 73 datagram classes (raw bytes of every first-byte range, damaged ciphertext; SCTP packets with "
                      "correct CRC and verification tag: unknown/truncated chunks, parameter lengths 0/odd/overlong, SACK gap blocks "
                      "inverted/overlapping/16-bit extremes/hundreds, counts beyond the body, FORWARD-TSN stream lists, RE-CONFIG parameters "
                      "of every type and truncation, bundled chunks, bundled INIT, DCEP garbage and invalid UTF-8 on unused and live streams, "
                      "every PPID; RTP/RTCP through SRTP: header-extension forms with wrong lengths, padding/CSRC extremes, short RTX, every "
                      "RTCP type with count/length mismatches, REMB/NACK extremes, codec payload truncations) are swept against the "
                      "protocol states a session passes through (DTLS handshake in progress, before SCTP start, COOKIE-WAIT/ECHOED, "
-                     "established idle / with data outstanding, media flowing) and then sampled with seeded field values: the victim's DTLS "
+                     "established idle / with data outstanding on the peer's or on the victim's own side - reliable or partially reliable - "
+                     "media flowing) and then sampled with seeded field values: the victim's DTLS "
                      "receive loop and every media task stay alive, handling one forged datagram costs < 1e6 + 2000*len executed lines, "
                      "and after void datagrams a fresh data-channel round trip and continued frame delivery succeed." ),
 }
